@@ -139,6 +139,23 @@ Theorem C09_same_media_served : forall r loopMS c n now m f0 frags st C cs,
 Proof. exact same_media_served. Qed.
 Print Assumptions C09_same_media_served.
 
+(** ... also when the request is cut short - the client goes away or the server's request timeout
+    ends the context ([ctx.Err()] is tested at the top of every iteration, [time.Sleep] does not
+    look at the context): whatever has been written is a prefix, each chunk at or after the
+    millisecond in which its media ends. *)
+Theorem C09_never_early_interrupted : forall (clock : nat -> Z) (sleep : nat -> Z -> nat),
+  (forall k, clock k <= clock (S k)) ->
+  (forall k d, (k <= sleep k d)%nat /\ clock k + d <= clock (sleep k d)) ->
+  forall (cancelled : nat -> bool) fs st newTime newNr newDur C cs ts nowMS startTimeS k0,
+  C < two63 -> 0 < ts -> 0 <= startTimeS -> wf_input fs newTime ->
+  chunkSegment fs st newTime newNr newDur C = Ok cs ->
+  exists n,
+    let ws := pace_loop_c clock sleep cancelled ts nowMS (clock k0) (S k0) (newTime + startTimeS * ts) cs in
+    Forall2 (fun e aw => Z.quot (e * 1000) ts <= vnow clock nowMS k0 (snd aw))
+            (firstn n (true_ends (newTime + startTimeS * ts) cs)) ws.
+Proof. exact never_early_interrupted. Qed.
+Print Assumptions C09_never_early_interrupted.
+
 (** A chunked request (finite availabilityTimeOffset > 0) is refused as too early exactly when
     it is made before the advertised availability time
     availabilityStartTime + E n / timescale - ato (units: ms * timescale), addressed by number
